@@ -503,6 +503,25 @@ def configure (proj : ProjectT) (tool : ToolT) (spdx : String → Option License
     customUrls := urlAcc.custom, readmeContent := rcontent, readmeContentType := rct, readmes := readmes,
     extras := extras, requiresDist := requiresDist }
 
+/-! ## the schema format `uri` ([tool.poetry] homepage / repository / documentation) -/
+
+/-- the recogniser below was written for exactly this pattern of the vendored fastjsonschema, and the schema puts the
+format on exactly these [tool.poetry] keys; if either changes, this fails to build -/
+theorem uriFormat_is_the_modelled_one :
+    Gen.uriFormatRegex = "^\\w+:(\\/?\\/?)[^\\s]+\\Z" ∧ Gen.toolUriKeys = ["documentation", "homepage", "repository"] := by decide
+
+/-- `\w` on ASCII (the scheme part; non-ASCII word characters are outside the model) -/
+def isWordAscii (c : Char) : Bool := isDigit c || isLowerAlpha c || ('A' ≤ c && c ≤ 'Z') || c = '_'
+
+/-- `re.search(r"^\w+:(\/?\/?)[^\s]+\Z", s)`: a non-empty run of word characters, a colon (it ends the run: `:` is not
+a word character), then at least one character, none of them white space (the optional slashes are not white space,
+so the group does not matter) -/
+def uriFormatMatch (s : List Char) : Bool :=
+  !(s.takeWhile isWordAscii).isEmpty &&
+  (match s.dropWhile isWordAscii with
+   | ':' :: rest => !rest.isEmpty && rest.all (fun c => !isSpace c)
+   | _ => false)
+
 /-! ## `packaging.utils.canonicalize_name` (names of extras, PEP 685) -/
 
 def isNameSep (c : Char) : Bool := c = '-' || c = '_' || c = '.'
